@@ -1,8 +1,8 @@
 SPECIFICATION MCSpec
 CONSTANTS
-  Actors = {"a1", "a2", "a3"}
+  Actors = {"a1", "a2", "a3", "a4"}
   Victims = {"a2"}
-  Prog <- F3
+  Prog <- F4
   Dur <- D
   BIG = 1000
   GiveUpPath = "as_written"
